@@ -614,3 +614,9 @@ func fromLitOrCall(e *Engine, sv ssa.Value, field int, seen map[ssa.Value]bool, 
 	}
 	return true
 }
+
+// escapedFn: the function is used as a value somewhere (not only called), so its call sites are not all known.
+func (e *Engine) escapedFn(fn *ssa.Function) bool {
+	e.callSites(fn)
+	return e.escaped[fn]
+}
